@@ -74,8 +74,13 @@ open Hive.Proto Hive.C12a
 
 def stepLine (s : St) (toks : List String) : St × String :=
   match toks with
-  | ["new", c] => match c.toNat? with | some (c + 1) => (init (c + 1), "ok") | _ => (s, "bad-op")
-  | ["add", x] => match x.toNat? with | some x => (add s x, "true") | none => (s, "bad-op")
+  -- capacity 0 is legal to construct: ToSlice is empty, Add panics (index out of range, nothing
+  -- changed before); outside the theorems (`0 < c`)
+  | ["new", c] => match c.toNat? with | some c => (init c, "ok") | _ => (s, "bad-op")
+  | ["add", x] =>
+    match x.toNat? with
+    | some x => if s.cap = 0 then (s, "panic") else (add s x, "true")
+    | none => (s, "bad-op")
   | ["slice"] => (s, showNatList (toSlice s))
   | _ => (s, "bad-op")
 
